@@ -3,6 +3,7 @@ package checks
 import (
 	"fmt"
 	"strings"
+	"sync"
 
 	"verif/tool/gosym"
 )
@@ -61,4 +62,56 @@ func C05(c *Ctx) {
 		})
 		c.MarkDistinct(fmt.Sprintf("shape %dx%d", r, cc))
 	}
+
+	// G: per corpus grammar, the emitted packed look-up against the dense table of the same
+	// generation run (cells), and packed vs -u parsers generated through the real entry points.
+	y, err := c.BuildYGen()
+	if err != nil {
+		c.Inconclusive("%v", err)
+		return
+	}
+	specs := gCorpus(c, 0)
+	g, err := c.Generate(y, specs, []string{"go", "go-u", "pair-p", "pair-u"}, nil)
+	if err != nil {
+		c.Inconclusive("%v", err)
+		return
+	}
+	N := 4
+	if c.Thorough() {
+		N = 6
+	}
+	c.Harnesses = append(c.Harnesses, "generated <grammar>/cmp/cmp.go:VerifCells, VerifAgree")
+	c.Bound("G-cell: every (state, symbol) of %d corpus grammars, both symbolic; G-behaviour: packed vs -u on all inputs of length <= %d", len(specs), N)
+	c.Explanation += " C05-G: for each corpus grammar the packed and the unpacked parser are generated from one ParseAndBuild (overlay helper calling the real build steps) and the emitted Action(state,symbol) of both files is compared for symbolic (state, symbol); in addition packed and -u parsers generated through TemplateGenFromString are compared on all abstract inputs up to N."
+	packedSeen := 0
+	for _, s := range specs {
+		if r := g.Results[genKey(s.Name, "pair-p")]; r.Dump != nil && r.Dump.NeedPacked {
+			packedSeen++
+		}
+	}
+	if packedSeen == 0 {
+		c.Inconclusive("no corpus grammar produced a packed table (vacuous cell check)")
+	}
+	c.Extra["grammars_with_packed_tables"] = packedSeen
+	var wg sync.WaitGroup
+	sem := make(chan struct{}, 4)
+	for _, s := range specs {
+		s := s
+		wg.Add(1)
+		sem <- struct{}{}
+		go func() {
+			defer wg.Done()
+			defer func() { <-sem }()
+			job := c.cmpJob(g, s, "VerifCells", nil, "C05cell")
+			job.Need = []string{"cell"}
+			job.Tweak = func(cfg *gosym.Config) { cfg.MaxSymIndex = 100000 }
+			c.RunSym(job)
+			job2 := c.cmpJob(g, s, "VerifAgree", []int{N}, "C05run")
+			job2.Need = []string{"reject"}
+			c.RunSym(job2)
+			c.MarkDistinct("grammar " + s.Name)
+		}()
+	}
+	wg.Wait()
+	c.Programs = len(specs)
 }
